@@ -623,59 +623,131 @@ func (p CPath) returnOf(ctx *FCtx) *ssa.Return {
 	return last
 }
 
-// step resolves one level: parameters of spliced callees to the argument at
-// the call, results of spliced calls to the returned value, phis and private
-// cells along the path. ok=false when v is already resolved.
-func (p CPath) step(v ssa.Value) (ssa.Value, bool) {
+// Occ is an instruction occurrence on a path together with its splice context.
+type Occ struct {
+	In  ssa.Instruction
+	Ctx *FCtx
+}
+
+// Occs lists the instruction occurrences of the path in order.
+func (p CPath) Occs() []Occ {
+	var out []Occ
+	for _, s := range p.Segs {
+		for _, in := range s.Instrs() {
+			out = append(out, Occ{In: in, Ctx: s.Ctx})
+		}
+	}
+	return out
+}
+
+// ctxOfValue: the context a value lives in when that is unambiguous on the path.
+func (p CPath) ctxOfValue(v ssa.Value) *FCtx {
+	var fn *ssa.Function
+	switch x := v.(type) {
+	case *ssa.Parameter:
+		fn = x.Parent()
+	case *ssa.FreeVar:
+		fn = x.Parent()
+	case ssa.Instruction:
+		fn = x.Parent()
+	}
+	if fn == nil {
+		return nil
+	}
+	return p.ctxOn(fn)
+}
+
+// stepIn resolves one level of v, which lives in context cur (nil: unknown):
+// parameters of spliced callees to the argument at the call (in the caller's
+// context), results of spliced calls to the returned value (in the callee's
+// context), phis and private cells along the path. ok=false when v is
+// already resolved.
+func (p CPath) stepIn(cur *FCtx, v ssa.Value) (ssa.Value, *FCtx, bool) {
+	if cur == nil {
+		cur = p.ctxOfValue(v)
+	}
 	switch x := v.(type) {
 	case *ssa.Parameter:
 		fn := x.Parent()
 		if p.fl == nil || fn == p.fl.Root {
-			return v, false
+			return v, cur, false
 		}
-		ctx := p.ctxOn(fn)
+		var ctx *FCtx
+		for c2 := cur; c2 != nil; c2 = c2.Parent {
+			if c2.Fn == fn {
+				ctx = c2
+				break
+			}
+		}
+		if ctx == nil {
+			ctx = p.ctxOn(fn)
+		}
 		if ctx == nil || ctx.Call == nil {
-			return v, false
+			return v, cur, false
 		}
 		for i, prm := range fn.Params {
 			if prm == x {
 				args := ctx.Call.Call.Args
 				if i < len(args) {
-					return args[i], true
+					return args[i], ctx.Parent, true
 				}
 			}
 		}
-		return v, false
+		return v, cur, false
 	case *ssa.Call:
 		if p.fl == nil {
-			return v, false
+			return v, cur, false
 		}
 		for _, ctx := range p.fl.byCall[x] {
+			if cur != nil && ctx.Parent != cur {
+				continue
+			}
 			if r := p.returnOf(ctx); r != nil && len(r.Results) == 1 {
-				return r.Results[0], true
+				return r.Results[0], ctx, true
 			}
 		}
-		return v, false
+		return v, cur, false
 	case *ssa.Extract:
 		if call, ok := x.Tuple.(*ssa.Call); ok && p.fl != nil {
 			for _, ctx := range p.fl.byCall[call] {
-				if r := p.returnOf(ctx); r != nil && x.Index < len(r.Results) {
-					return r.Results[x.Index], true
+				if cur != nil && ctx.Parent != cur {
+					continue
+				}
+				if r := p.returnOf(ctx); r != nil {
+					if x.Index < len(r.Results) {
+						return r.Results[x.Index], ctx, true
+					}
+					if len(r.Results) == 1 {
+						// return g(...): the tuple of another call is forwarded
+						if inner, isCall := r.Results[0].(*ssa.Call); isCall {
+							return &ssa.Extract{Tuple: inner, Index: x.Index}, ctx, true
+						}
+					}
 				}
 			}
 		}
-		return v, false
+		return v, cur, false
 	case *ssa.Phi:
-		if nv := p.PhiValue(x); nv != nil {
-			return nv, true
+		for k, s := range p.Segs {
+			if s.B == x.Block() && s.Lo == 0 && k > 0 && (cur == nil || s.Ctx == cur) {
+				prev := p.Segs[k-1]
+				for i, pr := range s.B.Preds {
+					if pr == prev.B && prev.Ctx == s.Ctx {
+						return x.Edges[i], s.Ctx, true
+					}
+				}
+			}
 		}
-		return v, false
+		return v, cur, false
 	}
 	if al := privateCell(v); al != nil {
-		// last store to the cell on this path before the load
+		// last store to the cell on this path before the load (same context)
 		var last ssa.Value
 		done := false
 		for _, s := range p.Segs {
+			if cur != nil && s.Ctx != cur {
+				continue
+			}
 			for _, in := range s.Instrs() {
 				if in == v.(ssa.Instruction) {
 					done = true
@@ -690,40 +762,53 @@ func (p CPath) step(v ssa.Value) (ssa.Value, bool) {
 			}
 		}
 		if last != nil {
-			return last, true
+			return last, cur, true
 		}
 	}
-	return v, false
+	return v, cur, false
 }
 
-// Resolve follows phis, private cells, spliced parameters and spliced call
-// results along the path.
-func (p CPath) Resolve(v ssa.Value) ssa.Value {
+// step is stepIn without a known context.
+func (p CPath) step(v ssa.Value) (ssa.Value, bool) {
+	nv, _, ok := p.stepIn(nil, v)
+	return nv, ok
+}
+
+// ResolveIn follows phis, private cells, spliced parameters and spliced call
+// results along the path, starting from a value of context cur.
+func (p CPath) ResolveIn(cur *FCtx, v ssa.Value) ssa.Value {
 	for i := 0; i < 64; i++ {
-		nv, ok := p.step(v)
+		nv, nc, ok := p.stepIn(cur, v)
 		if !ok {
 			return v
 		}
-		v = nv
+		v, cur = nv, nc
 	}
 	return v
 }
 
+// Resolve is ResolveIn for a value whose context is unambiguous on the path.
+func (p CPath) Resolve(v ssa.Value) ssa.Value { return p.ResolveIn(nil, v) }
+
 // AP is apOf made path-aware: the access path is continued through the
 // parameters of spliced helpers into the caller's values.
-func (p CPath) AP(v ssa.Value) AP {
+func (p CPath) AP(v ssa.Value) AP { return p.APIn(nil, v) }
+
+// APIn is AP for a value of context cur.
+func (p CPath) APIn(cur *FCtx, v ssa.Value) AP {
 	ap := apOf(v)
 	for i := 0; i < 16; i++ {
 		if ap.Root == nil {
 			return ap
 		}
-		nv, ok := p.step(ap.Root)
+		nv, nc, ok := p.stepIn(cur, ap.Root)
 		if !ok {
 			return ap
 		}
 		inner := apOf(nv)
 		// a parameter holding a pointer to a field: the callee's selections continue the caller's
 		ap = AP{Root: inner.Root, Sel: append(append([]string{}, inner.Sel...), ap.Sel...)}
+		cur = nc
 	}
 	return ap
 }
@@ -1179,4 +1264,36 @@ func viewLoops(fn *ssa.Function) []*Loop {
 		}
 	}
 	return all
+}
+
+
+// onlySpliced: fn is an unexported helper that only ever runs spliced into
+// other functions' views: it has static callers in the module, every use of it
+// is such a call, and it is not a root in its own right.
+func (c *Ctx) onlySpliced(fn *ssa.Function) bool {
+	if fn.Parent() != nil || !unexportedName(fn) || flatOpaque[fn] || fn.Synthetic != "" {
+		return false
+	}
+	calls, other := 0, 0
+	for _, g := range c.ModFn {
+		if g.Blocks == nil {
+			continue
+		}
+		rawInstrs(g, false, func(i ssa.Instruction) {
+			var ops []*ssa.Value
+			for _, op := range i.Operands(ops) {
+				if op == nil || *op != ssa.Value(fn) {
+					continue
+				}
+				if cc := asCall(i); cc != nil && cc.Value == ssa.Value(fn) {
+					if _, isCall := i.(*ssa.Call); isCall {
+						calls++
+						continue
+					}
+				}
+				other++
+			}
+		})
+	}
+	return calls > 0 && other == 0
 }
